@@ -3,7 +3,7 @@
 import json, sys
 CHECKS = {
  "C14": dict(
-   text="The amd64 assembly of GF(2^255-19) (add, sub, mul, sqr, modp, cmov, cswap) and GF(2^448-2^224-1) (add, sub, addsub, mul, cmov, cswap), and the mulA24 routines of the X25519/X448 ladders, in both the legacy MULQ/ADCQ and the MULX/ADCX/ADOX variants selected by the CPU-feature byte, are executed symbolically from the assembler's own macro-expanded listing (go tool asm -S, regenerated from /repo on every run) and decided to meet the same contract as the portable Go bodies for every operand: congruent results mod p, modp bit-identical, cmov/cswap bit-identical; counterexamples are replayed natively against the real assembly with the feature byte forced. Default-build-only Go logic of P-384 (identity test of affine points, IsOnCurve comparison) is analysed under the default amd64 tags with the Montgomery kernels uninterpreted; multi-lane KangarooTwelve equals the specification. FourQ portable field kernels meet the reduced-output contract the assembly assumes.",
+   text="The amd64 assembly of GF(2^255-19) (add, sub, mul, sqr, modp, cmov, cswap) and GF(2^448-2^224-1) (add, sub, addsub, mul, cmov, cswap), and the mulA24 routines of the X25519/X448 ladders, in both the legacy MULQ/ADCQ and the MULX/ADCX/ADOX variants selected by the CPU-feature byte, are executed symbolically from the assembler's own macro-expanded listing (go tool asm -S, regenerated from /repo on every run) and decided to meet the same contract as the portable Go bodies for every operand: congruent results mod p, modp bit-identical, cmov/cswap bit-identical; counterexamples are replayed natively against the real assembly with the feature byte forced. Default-build-only Go logic of P-384 (identity test of affine points, IsOnCurve comparison) is analysed under the default amd64 tags with the Montgomery kernels uninterpreted; multi-lane KangarooTwelve equals the specification. FourQ portable field kernels meet the reduced-output contract the assembly assumes. The portable Go kernels of both fields are held to the same contract in the same run (counterexamples in them are replayed with -tags purego).",
    note="Integer amd64 kernels only; fp448 squarings are attempted but unknown (tier=deep, not claimed); ladderStep/diffAdd/double, fourq, p384, csidh, sidh assembly, all AVX2/NEON code and arm64 are not covered; bit-identity of whole-primitive outputs across builds follows only for operations that canonicalise (ToBytes/Modp/IsZero).",
    ref="§4 C14"),
  "C18": dict(
@@ -47,11 +47,11 @@ CHECKS = {
    note="Vector length bounds per harness; FLP circuits, sharding and end-to-end aggregates are not covered.",
    ref="§4 C19"),
  "C05": dict(
-   text="Ed25519 scalar arithmetic decided by linear integer carry equations (red512 on every 256-bit and every < 2^320 input; one-upper-word cases thorough), isLessThanOrder = integer comparison; point decoding per RFC 8032 5.1.3 for whatever the square root returns (shared with C09), Ed448 likewise; VerifyPh/VerifyAny refuse contexts longer than 255 bytes.",
+   text="Ed25519 scalar arithmetic decided by linear integer carry equations (red512 on every 256-bit and every < 2^320 input; one-upper-word cases thorough), isLessThanOrder = integer comparison; point decoding per RFC 8032 5.1.3 for whatever the square root returns (shared with C09), Ed448 likewise; VerifyPh/VerifyAny refuse contexts longer than 255 bytes. Ed448 isLessThanOrder(S) = (S < L) for every 57-byte string.",
    note="Full 512-bit red512 is attempted but unknown (tier=deep, not claimed); point arithmetic / group equation outside the technique.",
    ref="§4 C05"),
  "C06": dict(
-   text="X25519/X448 input handling of the real Shared/clamp code for every scalar and peer value (clamping, reduction of u, success flag false for every all-zero ladder output and every small-order input and true otherwise - for whatever the ladder returns -, operands unchanged, canonical output) and the assembly mulA24 of both ladders (both CPU-feature variants) congruent to (A+2)/4 * x for every x.",
+   text="X25519/X448 input handling of the real Shared/clamp code for every scalar and peer value (clamping, reduction of u, success flag false for every all-zero ladder output and every small-order input and true otherwise - for whatever the ladder returns -, operands unchanged, canonical output) and the assembly mulA24 of both ladders (both CPU-feature variants) congruent to (A+2)/4 * x for every x. The X25519 / X448 component of kem/hybrid returns an error exactly when Shared reports failure and otherwise the value Shared produced (Shared stubbed with a free flag).",
    note="The Montgomery ladder is a recorder/uninterpreted function; ladderStep/diffAdd/double assembly not covered.",
    ref="§4 C06"),
  "C02": dict(
@@ -79,7 +79,7 @@ CHECKS = {
    note="Input lengths bounded per harness; field arithmetic below decoders is uninterpreted.",
    ref="§4 C10"),
  "C12": dict(
-   text="For GF(2^255-19) and GF(2^448-2^224-1): add, sub, neg, addsub, mul, sqr, red64, modp, IsZero/IsOne, ToBytes, cmov, cswap of the real generic code, and the amd64 assembly mul/sqr (fp25519) and mul (fp448), congruent/canonical for every byte string via linear-integer carry equations; Goldilocks scalars (Red, IsZero, Add, Sub, Neg, FromBytes <= 64 bytes, word lemmas); fp64/fp128 add, sub, equality, fp64 mul. FourQ portable GF(2^127-1) add/sub/mul: congruent and below 2^127 for all operands.",
+   text="For GF(2^255-19) and GF(2^448-2^224-1): add, sub, neg, addsub, mul, sqr, red64, modp, IsZero/IsOne, ToBytes, cmov, cswap of the real generic code, and the amd64 assembly mul/sqr (fp25519) and mul (fp448), congruent/canonical for every byte string via linear-integer carry equations; Goldilocks scalars (Red, IsZero, Add, Sub, Neg, FromBytes <= 64 bytes, word lemmas); fp64/fp128 add, sub, equality, fp64 mul. FourQ portable GF(2^127-1) add/sub/mul: congruent and below 2^127 for all operands. Prio3 fields: InvTwoN(n) * 2^n = 1 for every admitted exponent (bounded symbolic n).",
    note="64x64 partial products are shared bounded integers (sound for unsat; counterexamples concretised when possible); Montgomery multiplications (BLS12-381, fp128, CSIDH, P-384), FourQ and goldilocks full scalar Mul are not decided (the latter is tier=deep).",
    ref="§4 C12"),
 }
